@@ -24,8 +24,10 @@ import (
 	"crypto/elliptic"
 	cryptorand "crypto/rand"
 	"crypto/rsa"
+	"crypto/x509"
 	"encoding/base64"
 	"encoding/json"
+	"encoding/pem"
 	"fmt"
 	"net/http"
 	"net/url"
@@ -746,5 +748,101 @@ func (s *c03State) migrateAgain(st c03Step) {
 		}
 	}
 	s.x.Classf("migrate_again:storage-names-probed:%d", c03Bucket(probed))
+	n.sweep(s.x, st.Op, outs...)
+}
+
+// ---------------------------------------------------------------------------------------------------------------------
+// imported keys of other types
+
+var (
+	c03ImportRSAOnce sync.Once
+	c03ImportRSA     *rsa.PrivateKey
+)
+
+// importKey drops a key of a type the node never creates itself (RSA-2048, Ed25519, EC P-384/P-521 — all of which
+// util.PemToPrivateKey loads) into the key store and binds it to a kid (KeyStore.Link), then drives every by-kid entry
+// point for it, on good and on broken input. Verdicts come from the canary sweep: the imported key's material (RSA D,
+// primes and CRT values, the Ed25519 seed / 64 key bytes, EC scalars, in the renderings fmt and JSON produce) must not
+// be in any returned value, returned error, response or log line.
+func (s *c03State) importKey(st c03Step) {
+	n := s.n
+	var priv stdcrypto.Signer
+	typ := []string{"RSA-2048", "Ed25519", "EC-P-384", "EC-P-521"}[st.A%4]
+	switch typ {
+	case "RSA-2048":
+		c03ImportRSAOnce.Do(func() { c03ImportRSA, _ = rsa.GenerateKey(cryptorand.Reader, 2048) })
+		if c03ImportRSA == nil {
+			s.x.Fatalf("no RSA key")
+		}
+		priv = c03ImportRSA
+	case "Ed25519":
+		_, k, err := ed25519.GenerateKey(cryptorand.Reader)
+		s.x.NoErr(err, "keygen")
+		priv = k
+	case "EC-P-384":
+		k, err := ecdsa.GenerateKey(elliptic.P384(), cryptorand.Reader)
+		s.x.NoErr(err, "keygen")
+		priv = k
+	default:
+		k, err := ecdsa.GenerateKey(elliptic.P521(), cryptorand.Reader)
+		s.x.NoErr(err, "keygen")
+		priv = k
+	}
+	der, err := x509.MarshalPKCS8PrivateKey(priv)
+	s.x.NoErr(err, "pkcs8")
+	s.seq++
+	name := fmt.Sprintf("c03import-%s-%d", s.tag, s.seq)
+	s.x.NoErr(os.WriteFile(filepath.Join(n.cryptoDir(), name+"_private.pem"), pem.EncodeToMemory(&pem.Block{Type: "PRIVATE KEY", Bytes: der}), 0o600), "import key file")
+	n.loadKeys(s.x)
+	kid := fmt.Sprintf("did:web:c03.example:iam:%s#import-%d", s.tag, s.seq)
+	s.x.NoErr(n.keyStore.Link(s.ctx(), kid, name, "1"), "Link")
+	s.x.Class("import_key:" + typ)
+	var outs [][]byte
+	add := func(v any, err error) {
+		if err != nil {
+			outs = append(outs, []byte(err.Error()))
+			return
+		}
+		switch t := v.(type) {
+		case string:
+			outs = append(outs, []byte(t))
+		case []byte:
+			outs = append(outs, t)
+		default:
+			if js, jerr := json.Marshal(t); jerr == nil {
+				outs = append(outs, js)
+			}
+			outs = append(outs, []byte(fmt.Sprintf("%v", t)))
+		}
+	}
+	for _, r := range s.lcEntryPoints(kid, nil, 0x3f) {
+		outs = append(outs, r.out)
+		if r.ok {
+			s.x.Classf("import_key:%s:%s:signed", typ, r.name)
+			s.x.NonTrivial()
+		}
+	}
+	add(n.keyStore.Resolve(s.ctx(), kid))
+	// decryption entry points: a ciphertext for another key (reaches the key, then fails) and garbage
+	other := c03CallerKey(s.x)
+	ct, err := nutsCrypto.EciesEncrypt(&other.PublicKey, []byte(c03LCPlain))
+	s.x.NoErr(err, "ecies")
+	add(n.keyStore.Decrypt(s.ctx(), kid, ct))
+	add(n.keyStore.Decrypt(s.ctx(), kid, []byte("garbage")))
+	hdr := jwe.NewHeaders()
+	_ = hdr.Set(jwe.KeyIDKey, kid)
+	if msg, err := jwe.Encrypt([]byte(c03LCPlain), jwe.WithKey(jwa.ECDH_ES_A256KW, &other.PublicKey), jwe.WithProtectedHeaders(hdr)); err == nil {
+		body, _, derr := n.keyStore.DecryptJWE(s.ctx(), string(msg))
+		add(body, derr)
+		r := n.do("POST", n.internal+"/internal/crypto/v1/decrypt_jwe", "application/json", c03Raw(map[string]any{"message": string(msg)}), nil)
+		outs = append(outs, r.Dump())
+	}
+	add(n.keyStore.EncryptJWE(s.ctx(), []byte(c03LCPlain), map[string]interface{}{"kid": kid}, priv.Public()))
+	if st.C%2 == 0 {
+		add(nil, n.keyStore.Delete(s.ctx(), kid))
+		for _, r := range s.lcEntryPoints(kid, nil, 0x7) {
+			outs = append(outs, r.out)
+		}
+	}
 	n.sweep(s.x, st.Op, outs...)
 }
